@@ -31,8 +31,18 @@ def write_replay(prop, key, v):
     ks = key_str(key)
     name = hashlib.sha1(ks.encode()).hexdigest()[:12] + ".json"
     path = os.path.join(d, name)
+    text = None
+    it = v.get("item")
+    if isinstance(it, dict) and "seed" in it and "text" not in it and "lines" not in it:
+        try:
+            from . import universe
+
+            text = universe.materialise(it)
+        except Exception:  # noqa
+            text = None
     with open(path, "w") as f:
-        json.dump({"property": prop, "key": ks, "item": v.get("item"), "detail": v.get("detail")}, f, indent=1, default=str)
+        json.dump({"property": prop, "key": ks, "item": it, "detail": v.get("detail"), "variant_text": text,
+                   "how_to_replay": f"./check {prop} --replay {path}"}, f, indent=1, default=str)
     return path
 
 
